@@ -335,6 +335,13 @@ pub mod large {
 
     /// x random over the chosen content, y = x with `edits` random edits (65535: independent), cut / padded to n
     pub fn gen_pair(seed: u64, m: usize, n: usize, content: u8, sigma: u8, edits: u16) -> (Vec<u8>, Vec<u8>) {
+        gen_pair_junk(seed, m, n, content, sigma, edits, [0; 4])
+    }
+
+    /// as `gen_pair`, but x and y additionally get unrelated prefixes / suffixes of the given lengths
+    /// (x-prefix, y-prefix, x-suffix, y-suffix; the core shrinks accordingly), over disjoint symbol sets,
+    /// so that optimal alignments clip or gap whole ends
+    pub fn gen_pair_junk(seed: u64, m: usize, n: usize, content: u8, sigma: u8, edits: u16, junk: [u8; 4]) -> (Vec<u8>, Vec<u8>) {
         struct C {
             m: usize,
             n: usize,
@@ -376,6 +383,29 @@ pub mod large {
         while y.len() < c.n {
             y.push(symbols(&mut g, 1, c.content, c.spec.sigma)[0]);
         }
+        let mut x = x;
+        // unrelated ends: x gets copies of one symbol, y of another one
+        let (jx, jy) = match c.content {
+            0 => (b'a', b'a' + (c.spec.sigma - 1)),
+            _ => (0x00u8, 0xffu8),
+        };
+        let put = |v: &mut Vec<u8>, len: usize, sym: u8, front: bool| {
+            let len = len.min(v.len());
+            if front {
+                for z in v.iter_mut().take(len) {
+                    *z = sym;
+                }
+            } else {
+                let l = v.len();
+                for z in v.iter_mut().skip(l - len) {
+                    *z = sym;
+                }
+            }
+        };
+        put(&mut x, junk[0] as usize, jx, true);
+        put(&mut y, junk[1] as usize, jy, true);
+        put(&mut x, junk[2] as usize, jx, false);
+        put(&mut y, junk[3] as usize, jy, false);
         (x, y)
     }
 
